@@ -2,10 +2,10 @@ package main
 
 import (
 	"bytes"
-	"math/rand"
 	"encoding/base64"
 	"encoding/json"
 	"fmt"
+	"math/rand"
 	"os"
 	"path/filepath"
 	"regexp"
@@ -588,12 +588,12 @@ func docStep(dc *docCase, api string, cfg string, form string, style int) *Step 
 // document: replacing an earlier path changes whether a later one exists.
 func pathDependence() []*Scenario {
 	type hc struct {
-		doc     string
-		paths   []string
-		ph      string
-		eomp    bool
-		fail    [][2]string
-		stored  string
+		doc    string
+		paths  []string
+		ph     string
+		eomp   bool
+		fail   [][2]string
+		stored string
 	}
 	cases := []hc{
 		{`{"user":{"name":"x"},"b":1}`, []string{"user", "user.name"}, `"<Any value>"`, true, [][2]string{{"Any", "user.name"}}, ""},
